@@ -49,7 +49,7 @@ structure MView (w : World) (a : Arch) (f : Frame) (st : MState) : Prop where
   fp : st.fp = if f.ctx.has a a.fpName then some (f.ctx.raw a a.fpName) else none
   regs : ∀ r v, st.regs.lookup r = some v → f.ctx.has a r = true ∧ f.ctx.raw a r = v ∧ v ≤ a.regMax
   trust : st.first = true ↔ f.trust = .context
-  lr : st.first = true → st.lr = f.ctx.raw a (lrName a) ∧
+  lr : st.first = true → a.leafOk = true → st.lr = f.ctx.raw a (lrName a) ∧
     (f.ctx.has a (lrName a) = true ∨
       ∀ rec, cfiRecordAt w st.instr = some rec → tokenize rec.init ≠ leafToks a)
 
@@ -149,8 +149,8 @@ theorem step_cfi_arch {env : Env} {a : Arch} {w : World} {mem : Mem} (harch : en
   have hlr : st.first = true → a.leafOk = true → st.lr ≤ a.regMax →
       (f.ctx.get a (lrName a) = some st.lr ∨
         ∀ rec, cfiRecordAt w st.instr = some rec → tokenize rec.init ≠ leafToks a) := by
-    intro h1 _ h3
-    obtain ⟨e1, e2⟩ := hv.lr h1
+    intro h1 h2 h3
+    obtain ⟨e1, e2⟩ := hv.lr h1 h2
     rcases e2 with e2 | e2
     · left
       rw [get_of_has e2 (by rw [← e1]; exact h3), e1]
